@@ -226,3 +226,153 @@ Corollary ends_dmatch r s : In (length s) (ends r s) <-> dmatch r s = true.
 Proof.
   rewrite ends_spec, dmatch_correct, firstn_all. split; [intros [_ H]; exact H| intros H; split; [lia|exact H]].
 Qed.
+
+(* ------------------------------------------------------------------ *)
+(** * route matching, generic in the sub-expression semantics *)
+
+Section RouteProofs.
+  Variable RE : Type.
+  Variable prio : RE -> str -> list nat.
+  Variable lang : RE -> str -> Prop.
+  Hypothesis prio_spec : forall r s n,
+    In n (prio r s) <-> (n <= length s)%nat /\ lang r (firstn n s).
+
+  (* path = lit0 ++ v1 ++ lit1 ++ ... with v_i in the language of variable i *)
+  Inductive decomp : list (cpart RE) -> str -> list str -> Prop :=
+  | D_nil : decomp [] [] []
+  | D_lit l ps s vs : decomp ps s vs -> decomp (CLit l :: ps) (l ++ s) vs
+  | D_var name r ps v s vs : lang r v -> decomp ps s vs -> decomp (CVar name r :: ps) (v ++ s) (v :: vs).
+
+  Lemma strip_prefix_spec p : forall s s', strip_prefix p s = Some s' <-> s = p ++ s'.
+  Proof.
+    induction p as [|c p IH]; intros s s'; cbn [strip_prefix app].
+    - split; [intros [= ->]; reflexivity| intros ->; reflexivity].
+    - destruct s as [|d s]; [split; [discriminate| intros H; discriminate H]|].
+      destruct (c =? d) eqn:E.
+      + apply Z.eqb_eq in E as ->. rewrite IH. split; [intros ->; reflexivity| intros [= ->]; reflexivity].
+      + apply Z.eqb_neq in E. split; [discriminate| intros [= -> _]; congruence].
+  Qed.
+
+  Lemma first_some_some {A B} (f : A -> option B) l y :
+    first_some f l = Some y -> exists x, In x l /\ f x = Some y.
+  Proof.
+    induction l as [|x l IH]; cbn [first_some]; [discriminate|].
+    destruct (f x) eqn:E.
+    - intros [= ->]. exists x. split; [now left|exact E].
+    - intros H. destruct (IH H) as (x' & Hin & Hx). exists x'. split; [now right|exact Hx].
+  Qed.
+  Lemma first_some_none {A B} (f : A -> option B) l :
+    first_some f l = None -> forall x, In x l -> f x = None.
+  Proof.
+    induction l as [|x l IH]; cbn [first_some]; [intros _ x []|].
+    destruct (f x) eqn:E; [discriminate|]. intros H x' [<-|Hin]; [exact E| now apply IH].
+  Qed.
+
+  Theorem match_parts_sound : forall ps s vs, match_parts prio ps s = Some vs -> decomp ps s vs.
+  Proof.
+    induction ps as [|p ps IH]; intros s vs; cbn [match_parts].
+    - destruct s; [intros [= <-]; constructor|discriminate].
+    - destruct p as [l|name r].
+      + destruct (strip_prefix l s) as [s'|] eqn:E; [|discriminate].
+        apply strip_prefix_spec in E as ->. intros H. constructor. now apply IH.
+      + intros H. apply first_some_some in H as (n & Hin & Hn).
+        destruct (match_parts prio ps (skipn n s)) as [vs'|] eqn:E; [|discriminate].
+        injection Hn as <-. apply prio_spec in Hin as [_ Hl].
+        rewrite <- (firstn_skipn n s) at 1. constructor; [exact Hl| now apply IH].
+  Qed.
+
+  Theorem match_parts_complete : forall ps s vs, decomp ps s vs -> exists vs', match_parts prio ps s = Some vs'.
+  Proof.
+    induction 1 as [|l ps s vs _ [vs' IH]|name r ps v s vs Hl _ [vs' IH]]; cbn [match_parts].
+    - eauto.
+    - assert (E : strip_prefix l (l ++ s) = Some s) by now apply strip_prefix_spec.
+      rewrite E. eauto.
+    - match goal with |- exists x, first_some ?f ?l = Some x => destruct (first_some f l) as [y|] eqn:E end; [eauto|].
+      exfalso. apply first_some_none with (x := length v) in E.
+      + rewrite skipn_app_exact, IH in E. discriminate.
+      + apply prio_spec. rewrite firstn_app_exact, app_length. split; [lia|exact Hl].
+  Qed.
+
+  Lemma decomp_length ps s vs : decomp ps s vs -> length vs = length (var_names ps).
+  Proof. induction 1; cbn [var_names length]; congruence. Qed.
+End RouteProofs.
+
+(* ------------------------------------------------------------------ *)
+(** * the concrete instance: [ends] and [dmatch] *)
+
+Definition rdecomp := decomp re L.
+
+Lemma route_re_spec : forall ps s, L (route_re ps) s <-> exists vs, rdecomp ps s vs.
+Proof.
+  induction ps as [|p ps IH]; intros s; cbn [route_re].
+  - split.
+    + intros H. apply L_eps_inv in H as ->. exists []. constructor.
+    + intros [vs H]. inversion H. constructor.
+  - destruct p as [l|name r]; split.
+    + intros H. apply L_cat_inv in H as (u & v & -> & Hu & Hv). apply L_lit in Hu as ->.
+      apply IH in Hv as [vs Hv]. exists vs. now constructor.
+    + intros [vs H]. inversion H; subst. constructor; [now apply L_lit| apply IH; eauto].
+    + intros H. apply L_cat_inv in H as (u & v & -> & Hu & Hv).
+      apply IH in Hv as [vs Hv]. exists (u :: vs). now constructor.
+    + intros [vs H]. inversion H; subst. constructor; [assumption| apply IH; eauto].
+Qed.
+
+Theorem path_match_iff r path : path_match r path = true <-> exists vs, rdecomp (r_parts r) path vs.
+Proof. unfold path_match. rewrite dmatch_correct. apply route_re_spec. Qed.
+
+Theorem extract_sound r path vs : extract r path = Some vs -> rdecomp (r_parts r) path vs.
+Proof. apply (match_parts_sound re ends L ends_spec). Qed.
+
+(* MatchString and FindStringSubmatchIndex agree on whether there is a match *)
+Theorem extract_iff_match r path : path_match r path = true <-> exists vs, extract r path = Some vs.
+Proof.
+  rewrite path_match_iff. split.
+  - intros [vs H]. eapply (match_parts_complete re ends L ends_spec); eauto.
+  - intros [vs H]. exists vs. now apply extract_sound.
+Qed.
+
+(* the brute-force reference of Spec.v enumerates exactly the decompositions *)
+Lemma is_prefix_spec p : forall s, is_prefix p s = true <-> s = p ++ skipn (length p) s.
+Proof.
+  induction p as [|c p IH]; intros s; cbn [is_prefix length skipn app].
+  - split; reflexivity.
+  - destruct s as [|d s]; [split; discriminate|].
+    rewrite andb_true_iff, Z.eqb_eq, IH. split.
+    + intros [-> E]. now rewrite <- E.
+    + intros [= -> E]. split; [reflexivity|exact E].
+Qed.
+
+Theorem decomps_spec : forall ps s vs, In vs (decomps ps s) <-> rdecomp ps s vs.
+Proof.
+  induction ps as [|p ps IH]; intros s vs; cbn [decomps].
+  - destruct s; cbn [is_nil]; split.
+    + intros [<-|[]]. constructor.
+    + intros H. inversion H. now left.
+    + intros [].
+    + intros H. inversion H.
+  - destruct p as [l|name r].
+    + destruct (is_prefix l s) eqn:E.
+      * apply is_prefix_spec in E. rewrite IH. split.
+        -- intros H. rewrite E. now constructor.
+        -- intros H. inversion H; subst. now rewrite skipn_app_exact.
+      * split; [intros []|]. intros H. inversion H; subst.
+        assert (is_prefix l (l ++ s0) = true) by (apply is_prefix_spec; now rewrite skipn_app_exact).
+        congruence.
+    + rewrite in_flat_map. split.
+      * intros (n & Hn & Hin). destruct (dmatch r (firstn n s)) eqn:E; [|destruct Hin].
+        apply in_map_iff in Hin as (vs' & <- & Hin). apply IH in Hin. apply dmatch_correct in E.
+        rewrite <- (firstn_skipn n s) at 1. now constructor.
+      * intros H. inversion H; subst. exists (length v). split.
+        -- apply in_seq. rewrite app_length. lia.
+        -- rewrite firstn_app_exact, skipn_app_exact.
+           assert (E : dmatch r v = true) by now apply dmatch_correct. rewrite E.
+           apply in_map. now apply IH.
+Qed.
+
+Theorem spec_matches_iff r path : spec_matches (r_parts r) path = path_match r path.
+Proof.
+  apply eq_true_iff_eq. rewrite path_match_iff. unfold spec_matches. split.
+  - intros H. destruct (decomps (r_parts r) path) as [|vs l] eqn:E; [discriminate|].
+    exists vs. apply decomps_spec. rewrite E. now left.
+  - intros [vs H]. apply decomps_spec in H. destruct (decomps (r_parts r) path); [destruct H|reflexivity].
+Qed.
